@@ -177,8 +177,17 @@ def run(ctx):
             names_ = list(case['types'])
             for k_, a_ in enumerate(case['assignment']):
                 a_['type'] = names_[0] if (k_ == 0 or k_ % 2 == 0) else names_[1]
+        if ci % 2 == 1:
+            # assemblies without pins (whole-assembly low-fidelity model): next to the core boundary, an empty position or one another
+            # their six wall cells ARE the gap cells - the map between them has to be the identity
+            pos = [(1, 1)] + [p_ for p_ in gi.core_positions(2)[1:] if rng.random() < 0.6]
+            case = gi.random_case(rng, positions=pos, n_types=2, gap_model='flow', length=0.1)
+            names_ = list(case['types'])
+            gi.make_low_fidelity(rng, case, names_[1])
+            for k_, a_ in enumerate(case['assignment']):
+                a_['type'] = names_[1] if (k_ > 0 or rng.random() < 0.5) else names_[0]
         for tn in list(case['types']):
-            if rng.random() < 0.5:
+            if rng.random() < 0.5 and not case['types'][tn].get('use_low_fidelity_model'):
                 gi.add_axial_regions(rng, case, tn)
         gi.random_power(rng, case)
         d = str(ctx.work / ("c%d" % ci))
@@ -202,6 +211,17 @@ def run(ctx):
                               "the same heat" % (a_i, k_, wp[k_] if k_ >= 0 else float('nan'), wc[k_] if k_ >= 0 else float('nan')),
                               case=case, asm=a_i)
                 break
+            # an assembly without pins whose six neighbours are absent or without pins, too: duct cells and gap cells coincide
+            nbr_ = [int(x) - 1 for x in np.array(r.core.asm_adj)[a_i][:6]]
+            if not a.has_rodded and all(n_ < 0 or not r.assemblies[n_].has_rodded for n_ in nbr_):      # (asm_adj counts existing assemblies)
+                xr0 = a.region[0].calculate_xbnds()
+                xcp0 = processed_gap(xr0, xc)
+                ctx.count("reactor_unrodded_coincident_meshes")
+                if xcp0.shape != xr0.shape or np.abs(xcp0 - xr0).max() > 1e-12 * xr0[-1]:
+                    ctx.violation("c10-reactor-unrodded-mesh", "assembly %d has no pins and no neighbour with pins: its six wall cells are the gap "
+                                  "cells, but the gap mesh round it has its boundaries at %s, the wall cells at %s - the duct/gap map is not "
+                                  "the identity" % (a_i, np.round(xcp0, 6).tolist(), np.round(xr0, 6).tolist()), case=case, asm=a_i)
+                    break
             for reg in a.region:
                 xr = reg.calculate_xbnds()
                 ctx.evals += 1
